@@ -24,7 +24,10 @@ RULE = ('Documents "at version K" are generated offline for every K in 0..SCHEMA
         'streams (all 14 kinds, errors included) through the TableDataSet model; (b) the real create_migrations, '
         'instrumented, on "expected" documents of every version: driver model with the recorded per-migration '
         'actions, and the returned actions replayed on the document in the model, compared with the real '
-        'TableDataSet, with meta_only / schema-subsequence / user-table frame evaluated. A case is non-trivial when '
+        'TableDataSet, with meta_only / schema-subsequence / user-table frame evaluated; (c) in the same cases every '
+        'modelled migration body is evaluated on the tdset the real migration ran on (oracle tables for json, re, '
+        'pick_*_ident taken from that run) and must emit exactly the recorded actions, and the decidable premise of its '
+        'totality theorem must hold there; extra documents just below each early hand-modelled migration. A case is non-trivial when '
         'at least one migration runs or the document has user tables.')
 TRUSTED = ['Model/Migrate.v is hand-written: TableDataSet (14 actions + exception classes) and the driver of '
            'create_migrations; compared with the running code on every run (vm_compute, exact states)',
